@@ -36,6 +36,12 @@ CTORS = {'list': 1, 'List': 1, 'set': 1, 'frozenset': 1, 'Sequence': 1, 'Iterabl
          'Optional': 1, 'or': 2, 'type': 1, 'Type': 1, 'Literal': 1, 'Literal2': 2, 'Annotated_meta': 1, 'Annotated_unhashable': 1,
          'Annotated_is': 1, 'Annotated_is_mixed': 1, 'Is_junk': 1, 'IsAttr_junk': 1, 'Callable': 2, 'abc_Callable': 2, 'Final': 1, 'ClassVar': 1,
          'G': 1, 'typing_sub1': 2, 'typing_sub2': 3, 'TypeVar_bound': 1, 'TypeVar_constr': 2, 'NewType': 1}
+ARITY_ORIGINS = ['cabc.ItemsView', 'cabc.KeysView', 'cabc.ValuesView', 'cabc.Mapping', 'cabc.MutableMapping', 'cabc.Sequence',
+                 'cabc.MutableSequence', 'cabc.Set', 'cabc.MutableSet', 'cabc.Collection', 'cabc.Container', 'cabc.Iterable', 'cabc.Iterator',
+                 'cabc.Reversible', 'cabc.Generator', 'cabc.AsyncGenerator', 'cabc.Coroutine', 'cabc.Awaitable', 'cabc.AsyncIterable',
+                 'cabc.AsyncIterator', 'cabc.Callable', 'collections.deque', 'collections.defaultdict', 'collections.OrderedDict',
+                 'collections.Counter', 'collections.ChainMap', 'tuple', 'type', 'frozenset', 'set', 'contextlib.AbstractContextManager',
+                 're.Pattern', 're.Match']
 OBJS = ['1', 'a', 'None', '[1]', '[[]]', "(1,'a')", '{}', "{'a':1}", 'int', '1.5', '[a]', '{1}', 'obj']
 CONFS = ['default', 'default', 'tower', 'O0', 'warn']
 PHASE = {'is_bearable': 'PCheck', 'die_if_unbearable': 'PCheck', 'TypeHint_bearable': 'PCheck', 'TypeHint': 'PDoor', 'is_subhint_l': 'PDoor',
@@ -62,7 +68,12 @@ def gen_hint(rng, depth, typing_pool):
     if depth == 0 or rng.random() < 0.35:
         pool = rng.choice([VALID, JUNK, JUNK, SPECIAL, typing_pool])
         return ['leaf', rng.choice(pool)]
-    c = rng.choice(sorted(CTORS))
+    c = rng.choice(sorted(CTORS) + ['arity', 'arity', 'arity'])
+    if c == 'arity':
+        # a PEP 585 alias of a standard container / protocol with 0-3 arguments (CPython does not count them; beartype must)
+        c = 'arity:%s:%d' % (rng.choice(ARITY_ORIGINS), rng.randrange(4))
+        ch = [gen_hint(rng, min(depth - 1, 1), typing_pool) for _ in range(3)]
+        return ['sub', c, ch]
     ch = [gen_hint(rng, depth - 1, typing_pool) for _ in range(CTORS[c])]
     if c.startswith('typing_sub'):
         ch[0] = ['leaf', rng.choice(typing_pool)]
@@ -160,6 +171,13 @@ def run(ctx):
     for c in ('list', 'List', 'Optional', 'tuple_var', 'Annotated_meta', 'type'):
         cases.append({'kind': 'junk', 'hint': ['deep', c, 40, ['leaf', 'int']], 'obj': '1', 'conf': 'default'})
         cases.append({'kind': 'junk', 'hint': ['deep', c, 40, ['leaf', 'j_int']], 'obj': '1', 'conf': 'default'})
+    # every standard container / protocol origin with 0, 1, 2 and 3 well-formed arguments, alone and below a list
+    for o in ARITY_ORIGINS:
+        for k in range(4):
+            kids = [['leaf', 'int'], ['leaf', 'str'], ['leaf', 'float']]
+            cases.append({'kind': 'junk', 'hint': ['sub', 'arity:%s:%d' % (o, k), kids], 'obj': '1', 'conf': 'default'})
+            if k in (1, 3):
+                cases.append({'kind': 'junk', 'hint': ['sub', 'list', [['sub', 'arity:%s:%d' % (o, k), kids]]], 'obj': '[1]', 'conf': 'default'})
     for d in (150, 400):          # beyond the parser's nesting limit / beyond the 256 entries of the hint queue
         cases.append({'kind': 'junk', 'hint': ['deep', 'list', d, ['leaf', 'int']], 'obj': '[1]', 'conf': 'default'})
     rows, index, seen_rows = [], [], {}
